@@ -85,12 +85,14 @@ for _o in ("Mdiff", "Mconv", "Mup", "Mupalt", "Msrc", "Rsrc", "Mbc", "Rbc", "gho
     UNKNOWN_SCOPE["C17_" + _o] = [_o, "S." + _o]
 # ... except where the output is compared, entry by entry, with an exact small-rational TARGET of the
 # configuration (x* is integer-valued): a finite value that is not within the lifting tolerance of ANY small
-# rational is in particular different from the target, so the clause is decided: failing
+# rational is in particular different from the target.  The clause is decided (failing) when the observer has in
+# addition certified, in floating point, that the output is FAR from its target (obs["_far"][output]: more than
+# 1e-6 relative, beyond what rounding can do at the admitted condition numbers); a near miss stays undecided
 TARGETED = {
     "C04_Solves": ["r_solve"], "C04_Variants": ["r_variants"], "C12_History": ["r_history"],
     "C12_HistoryPeriodic": ["r_history_per"], "C12_FixedPoint": ["r_fixed"],
     "C12_ExplicitUsable": ["r_after_explicit"], "C04_ExternalSolver": ["r_ext"],
-    "C07_Premise": ["divu"], "C06_Steady": ["steady"],
+    "C06_Steady": ["steady"],
     # later integrals are compared with the first one, the integral of the small-rational initial data (always
     # liftable, else the sequence is dropped): an unliftable later value differs from it
     "C01_ClosedStepCentral": ["integrals"], "C01_ClosedStepUpwind": ["integrals"], "C01_ClosedStepExplicit": ["integrals"],
@@ -253,7 +255,8 @@ def run_property(prop, tier, seed, *, clauses_for, n_quick, n_thorough, gen_kw=N
             # a clause that touches a finite observation which could not be lifted (true denominator
             # beyond the lifting bound) cannot be decided exactly: undecided, not failing
             needs = UNKNOWN_SCOPE.get(cl) or NEEDS.get(cl) or list(e["obs"].keys())
-            if any(o in unknown_out and o not in TARGETED.get(cl, ()) for o in needs):
+            far = e["obs"].get("_far", {})
+            if any(o in unknown_out and not (o in TARGETED.get(cl, ()) and far.get(o, False)) for o in needs):
                 v["failing"].remove(cl)
                 v.setdefault("undecided", []).append(cl)
         for cl in v["failing"]:
